@@ -64,14 +64,14 @@ func buildGrammar() *grammar {
 			}
 		}
 		rec(0, "retry exponential", 0)
-		s.pos = []position{{name: "type", tmpl: t}}
+		s.pos = []position{{name: "type", tmpl: t, v: "exponential"}}
 		for _, o := range opts {
 			ot := kwTmpl("retry exponential " + o[0])
 			for _, sp := range valueSpellings(ot, o[1])[1:] {
 				sp.name = o[0] + ":" + sp.name
 				s.xsp = append(s.xsp, sp)
 			}
-			s.pos = append(s.pos, position{name: o[0], tmpl: ot})
+			s.pos = append(s.pos, position{name: o[0], tmpl: ot, v: o[1]})
 		}
 		// a quoted type directly followed by an option keyword, and a following directive
 		s.xsp = append(s.xsp, spelling{name: "quoted-type+max", text: `retry "exponential" max "4"`})
@@ -219,7 +219,7 @@ func buildGrammar() *grammar {
 	g.blk("matcher", "", "@m1", false)
 	g.add(&slot{block: "matcher", name: "name", head: true,
 		sp:  []spelling{{name: "bare", text: "@m1"}, {name: "cmt-after", text: "@m1 # c"}, {name: "quoted", text: `"@m1"`}},
-		pos: []position{{name: "name", tmpl: func(tok string) string { return "@" + tok }, unquotedOnly: true}}})
+		pos: []position{{name: "name", tmpl: func(tok string) string { return "@" + tok }, unquotedOnly: true, v: "m1"}}})
 	match("matcher")
 	g.blk("matcher2", "", "@m2", false)
 
@@ -244,9 +244,9 @@ func buildGrammar() *grammar {
 			{name: "wrap-cmt", text: "inbound\n{\n# c\n/d", close: "# d\n}\n"},
 		},
 		pos: []position{
-			{name: "path", tmpl: func(tok string) string { return tok }},
-			{name: "slash-path", tmpl: func(tok string) string { return "/" + tok }, unquotedOnly: true},
-			{name: "inbound-path", tmpl: func(tok string) string { return "inbound " + tok }},
+			{name: "path", tmpl: func(tok string) string { return tok }, v: "/d"},
+			{name: "slash-path", tmpl: func(tok string) string { return "/" + tok }, unquotedOnly: true, v: "d"},
+			{name: "inbound-path", tmpl: func(tok string) string { return "inbound " + tok }, v: "/d"},
 		}})
 	g.val("route", "application", "application", "app1").with = []string{"endpoint_name"}
 	g.val("route", "endpoint_name", "endpoint_name", "ep1").with = []string{"application"}
@@ -258,7 +258,7 @@ func buildGrammar() *grammar {
 			{name: "cmt-after", text: "match @m1 # c", needs: []string{"matcher"}},
 			{name: "unknown", text: "match @nope"},
 		},
-		pos: []position{{name: "ref", tmpl: func(tok string) string { return "match @" + tok }, unquotedOnly: true, needs: []string{"matcher"}}}})
+		pos: []position{{name: "ref", tmpl: func(tok string) string { return "match @" + tok }, unquotedOnly: true, needs: []string{"matcher"}, v: "m1"}}})
 	g.blk("route.match", "route", "match", false)
 	match("route.match")
 	rateLimit("route.rate_limit", "route")
@@ -275,7 +275,7 @@ func buildGrammar() *grammar {
 	g.add(&slot{block: "route.auth_hmac", name: "inline_secret", head: true,
 		sp: append([]spelling{{name: "none", text: "auth hmac"}}, append(valueSpellings(kwTmpl("auth hmac"), "raw:h9"),
 			spelling{name: "ref", text: "auth hmac secret_ref S1", needs: []string{"secrets"}})...),
-		pos: []position{{name: "value", tmpl: kwTmpl("auth hmac")}, {name: "ref", tmpl: kwTmpl("auth hmac secret_ref")}}})
+		pos: []position{{name: "value", tmpl: kwTmpl("auth hmac"), v: "raw:h9"}, {name: "ref", tmpl: kwTmpl("auth hmac secret_ref"), v: "S1", needs: []string{"secrets"}}}})
 	g.list("route.auth_hmac", "secret", "secret", "raw:h0", "raw:h3", true).must = true
 	g.list("route.auth_hmac", "secret_ref", "secret_ref", "S1", "S2", true).needs = []string{"secrets"}
 	g.val("route.auth_hmac", "signature_header", "signature_header", "X-Sig")
@@ -326,7 +326,7 @@ func buildGrammar() *grammar {
 			{name: "internal-wrap", text: "internal\n{\n/p", close: "}\n"},
 			{name: "outbound", text: "outbound /p"},
 		},
-		pos: []position{{name: "internal-path", tmpl: func(tok string) string { return "internal " + tok }}}})
+		pos: []position{{name: "internal-path", tmpl: func(tok string) string { return "internal " + tok }, v: "/p"}}})
 	g.blk("proute.pull", "proute", "pull", true)
 	g.val("proute.pull", "path", "path", "/e").must = true
 	g.list("proute.pull", "auth_token", "auth token", "raw:p1", "raw:p2", false)
